@@ -25,7 +25,9 @@ func checkC18(p *load.Program, r *kit.Report) {
 	importRules(p, r, "C01", "`on the current best chain` is relative to repo.longest: Longest() must pick the branch with the most accumulated work", 1, nil, "ARGMAX")
 	importRules(p, r, "C09", "the height-map arm of the lookups compares with header(height): it must refuse heights beyond the tip, or a trimmed (invalidated) block still in the files verifies as best chain", 6, nil, "TIP-BOUND")
 	importRules(p, r, "C17", "`on the current best chain` is a comparison with repo.longest: after an invalidation removed branches the tip must be re-selected on every path, or blocks of a deleted branch keep verifying as best chain", 1,
-		func(o *kit.Obligation) bool { return strings.HasPrefix(o.Construct, "MarkHeaderInvalid/reselect-after-trim") }, "MUST-PASS")
+		func(o *kit.Obligation) bool {
+			return strings.HasPrefix(o.Construct, "MarkHeaderInvalid/reselect-after-trim")
+		}, "MUST-PASS")
 	importRules(p, r, "C17", "a header removed by Trim must leave the branch's hash map, or GetHeader binds a proof that names its hash to the header that replaced it", 2, nil, "TRIM-SHAPE")
 	importRules(p, r, "C17", "a header removed by Trim must leave the branch's hash map, or GetHeader binds a proof that names its hash to the header that replaced it", 2, nil, "SHRINK-SIBLING")
 	r.NotDecided = "that the lookups answer truthfully for every history (C09); the merkle path arithmetic inside the dependency (CalculateRoot); proof corruption cases as values."
